@@ -549,7 +549,7 @@ def harness_mod(d, N, m, unwind, stub_width=True, tags=None):
     stub = "#[kani::stub(unicode_width::UnicodeWidthChar::width, crate::stub_width)]\n    " if stub_width else ""
     T = dict(tags or {})
     via = d.get("via")
-    if via in ("clone", "str"):
+    if via in ("clone", "str", "new", "new_from_iter"):
         # every assertion of these variants formalises C15 / C14 (the same step contract, for a cloned / string-built lexer)
         only = "C15" if via == "clone" else "C14"
         for k in ("tok", "span", "errkind", "errloc", "custom", "customloc", "none", "extra", "okerr", "errok", "rs", "pos", "match", "done", "lm", "logn", "log"):
@@ -563,13 +563,17 @@ def harness_mod(d, N, m, unwind, stub_width=True, tags=None):
         construct = base_construct.replace("let mut lx =", "let mut orig =").replace("lx.0.", "orig.0.").replace("lx.switch", "orig.switch") + \
             "\n        let mut lx = orig.clone();\n        let orig_view = (orig.0.__state, orig.0.__initial_state, orig.0.__done, orig.0.match_loc(), orig.0.__iter.size_hint().0, orig.0.__verif_user_state().n);"
         post = 'assert!(orig_view == (orig.0.__state, orig.0.__initial_state, orig.0.__done, orig.0.match_loc(), orig.0.__iter.size_hint().0, orig.0.__verif_user_state().n) && orig.0.__verif_last_match_is_none(), "[C15] a call on the clone changed the original");'
-    elif via == "str":
+    elif via == "new_from_iter":
+        # C14: the Default-state iterator constructor (fresh lexer: Init, not done, location zero)
+        construct = "let mut lx = L::new_from_iter(ArrIter { a, n, i: 0 });"
+        symbolic_state = "let base = Loc { line: 0, col: 0, byte_idx: 0 }; let rs0: u8 = 0; let done0 = false;"
+    elif via in ("str", "new"):
         # C14: the lexer is built from a &str holding the same characters (fresh lexer: Init, not done, location zero)
         construct = ("let mut s_bytes = [0u8; 4 * N + 4]; let mut s_len = 0usize;\n"
                      "        { let mut k = 0; while k < N { if k < n { let l = a[k].encode_utf8(&mut s_bytes[s_len..s_len + 4]).len(); s_len += l; } k += 1; } }\n"
                      "        // the buffer holds exactly the UTF-8 encodings written by char::encode_utf8 (no validation loop needed)\n"
                      "        let s_str: &str = unsafe { std::str::from_utf8_unchecked(&s_bytes[..s_len]) };\n"
-                     "        let mut lx = L::new_with_state(s_str, Log::default());")
+                     "        let mut lx = %s;" % ("L::new(s_str)" if via == "new" else "L::new_with_state(s_str, Log::default())"))
         pos_check = ""
         symbolic_state = "let base = Loc { line: 0, col: 0, byte_idx: 0 }; let rs0: u8 = 0; let done0 = false;"
     else:
@@ -668,7 +672,7 @@ pub mod %(name)s {
            t_none=tag("none", "C05 C01 C02"), t_extra=tag("extra", "C05"),
            t_okerr=tag("okerr", "C07 C01 C02 C04 C11"), t_errok=tag("errok", "C07 C01 C02 C04 C11"), t_rs=tag("rs", "C03 C08"),
            t_pos=tag("pos", "C01 C02 C04 C05 C08 C11"), t_match=tag("match", "C06 C08 C10"), t_done=tag("done", "C05"),
-           t_lm=tag("lm", "C01 C10"), t_logn=tag("logn", "C10 C01"), t_log=tag("log", "C10 C06 C01"))
+           t_lm=tag("lm", "C01 C07 C09 C10"), t_logn=tag("logn", "C10 C01"), t_log=tag("log", "C10 C06 C01"))
 
 
 PROJ = """
